@@ -5,7 +5,7 @@ from sa.engine.api import *
 from sa.engine import callgraph
 from sa.rules._helpers_D import *
 
-UNITS = ["node/miner.cpp", "node/mining_args.cpp"]
+UNITS = ["node/miner.cpp", "node/mining_args.cpp", "validation.cpp", "rpc/mining.cpp"]
 BA = "node::BlockAssembler::"
 EXPLANATION = ("MPT/ORDER on BlockAssembler::CreateNewBlock: the template is returned only if test_block_validity is off or TestBlockValidity(chainstate, *pblock) "
                "reported a valid state, and TestBlockValidity runs after the last write to the block; PROVENANCE: the coinbase output value is "
@@ -15,7 +15,11 @@ EXPLANATION = ("MPT/ORDER on BlockAssembler::CreateNewBlock: the template is ret
                "block_max_weight and sigops + chunk < MAX_BLOCK_SIGOPS_COST; TestChunkTransactions rejects when any transaction is not IsFinalTx(tx, nHeight, "
                "m_lock_time_cutoff) with the cutoff = tip median-time-past; addChunks includes a chunk (AddToBlock for every selected transaction) only past both "
                "tests called on that chunk's own feerate / summed sigops / transactions. CheckMiningOptions accepts only block_max_weight <= MAX_BLOCK_WEIGHT, "
-               "reserved <= max, coinbase sigops <= MAX_BLOCK_SIGOPS_COST, and the BlockAssembler constructor throws otherwise.")
+               "reserved <= max, coinbase sigops <= MAX_BLOCK_SIGOPS_COST, and the BlockAssembler constructor throws otherwise. SYMMETRY miner/consensus: the "
+               "condition under which GetMinimumTime applies the BIP94 timewarp floor (height expression % modulus == 0) and the floor itself (prev block time - "
+               "MAX_TIMEWARP) are extracted from the facts and compared with the `time-timewarp-attack` rung of ContextualCheckBlockHeader (same height term, every "
+               "caller passes DifficultyAdjustmentInterval() as the modulus, same bound); min_time starts at the `time-too-old` bound + 1; UpdateTime sets nTime from "
+               "max(GetMinimumTime, now) and CreateNewBlock always calls it on the tip.")
 ASSUMPTIONS = ["TestBlockValidity performs full consensus validation of the block on top of the tip (C01-C06)",
                "CTxMemPool::GetBlockBuilderChunk returns chunks in a topologically valid order with their total weight in FeePerWeight::size (TxGraph BlockBuilder, not decided)",
                "CTxMemPoolEntry::GetTxWeight / GetSigOpCost / GetFee are the entry's weight, sigop cost and base fee"]
@@ -47,6 +51,7 @@ def check(ctx):
     _chunk_tests(ctx, P)
     _add_chunks(ctx, P)
     _options(ctx, P)
+    _min_time(ctx, P)
 
 
 def _create_new_block(ctx, P):
@@ -240,3 +245,134 @@ def _options(ctx, P):
             ok = ok and F.counterexample(gb, F.parse("CHECKED")) is None and any(is_call_to("node::FlattenMiningOptions", x) for x in subexprs(e.value))
     ctx.ob("BlockAssembler/options-checked", "MPT", "a BlockAssembler's options are installed only if CheckMiningOptions succeeded (otherwise the constructor throws), flattened",
            ok, ct.where)
+
+
+# ------------------------------------------------------------------------------------------ miner time floor vs. consensus timestamp rungs
+
+def _canon_prev(fn, e, subst):
+    """key of e with single-definition locals expanded and the function's `const CBlockIndex*` parameter renamed to PREV"""
+    prevs = [p["n"] for p in fn.params if "CBlockIndex" in p.get("ty", "")]
+    e = F.expand(e, subst)
+
+    def ren(x):
+        if isinstance(x, list):
+            if len(x) == 2 and x[0] == "param" and x[1] in prevs:
+                return ["param", "PREV"]
+            return [ren(y) for y in x]
+        return x
+    return F.key(ren(e))
+
+
+def _mods(e):
+    return [x for x in subexprs(e) if x[0] == "b" and x[1] == "%"]
+
+
+def _min_time(ctx, P):
+    gm = ctx.used(P.fn("node::GetMinimumTime"))
+    gs = naming(gm, P)
+    cc = ctx.used(P.fn("ContextualCheckBlockHeader"))
+    cs = naming(cc, P)
+    # ---- consensus side: the two timestamp rungs
+    rung = {}
+    for e in exits(cc, P, cs):
+        ic = invalid_call(e.value)
+        if ic and ic[1] in ("time-timewarp-attack", "time-too-old"):
+            rung[ic[1]] = e
+    if set(rung) != {"time-timewarp-attack", "time-too-old"}:
+        raise AnalysisBroken("ContextualCheckBlockHeader: timestamp rungs not found (%s)" % sorted(rung))
+    tw = rung["time-timewarp-attack"]
+    tw_guards = [g for g in tw.guards if g.kind in ("if", "sc")]
+    c_mod = [m for g in tw_guards for m in _mods(F.expand(g.expr, cs))]
+    c_cmp = [x for g in tw_guards for x in subexprs(F.expand(g.expr, cs)) if x[0] == "b" and x[1] in ("<", ">", "<=", ">=") and "GetBlockTime" in show(x)]
+    if len(c_mod) != 1 or len(c_cmp) != 1:
+        raise AnalysisBroken("ContextualCheckBlockHeader: time-timewarp-attack rung has an unexpected shape")
+    # the rung fires when  H % M == 0  and  block time < bound
+    twf, _, _ = F.bind_atoms(F.mk_and([g.formula(cs) for g in tw_guards]), {"MOD": F.key(F.expand(c_mod[0], cs)), "EARLY": re.compile(r"block\.GetBlockTime\(\) < .*")})
+    ok_shape = F.counterexample(twf, F.parse("!MOD && EARLY")) is None and c_cmp[0][1] == "<" and show(c_cmp[0][2]) == "block.GetBlockTime()"
+    ctx.ob("ContextualCheckBlockHeader/timewarp-shape", "LADDER", "the time-timewarp-attack rung fires only when height % interval == 0 and block time < previous block time - MAX_TIMEWARP",
+           ok_shape, "%s:%s" % (cc.file, tw.line), {"guard": F.fshow(F.mk_and([g.formula(cs) for g in tw_guards]))})
+    c_height, c_modulus, c_bound = _canon_prev(cc, c_mod[0][2], cs), c_mod[0][3], _canon_prev(cc, c_cmp[0][3], cs)
+    old = rung["time-too-old"]
+    o_cmp = [x for g in old.guards if g.kind in ("if", "sc") for x in subexprs(F.expand(g.expr, cs)) if x[0] == "b" and x[1] in ("<=", ">=", "<", ">")]
+    if len(o_cmp) != 1:
+        raise AnalysisBroken("ContextualCheckBlockHeader: time-too-old rung has an unexpected shape")
+    oc = o_cmp[0]
+    mtp_side = oc[3] if show(oc[2]) == "block.GetBlockTime()" else oc[2]
+    # time <= MTP rejects (or MTP >= time): the smallest acceptable time is MTP + 1
+    nonstrict = (oc[1] == "<=" and show(oc[2]) == "block.GetBlockTime()") or (oc[1] == ">=" and show(oc[3]) == "block.GetBlockTime()")
+    c_mtp = _canon_prev(cc, mtp_side, cs)
+
+    # ---- miner side
+    wr = [s for s in sites(gm, lambda e: e[0] == "b" and e[1] == "=" and e[2][0] == "local", P)]
+    rets = [e for e in exits(gm, P, gs) if e.kind == "ret"]
+    if len(rets) != 1 or rets[0].value[0] != "local":
+        raise AnalysisBroken("GetMinimumTime: result is not a single local")
+    acc = rets[0].value[1]
+    vals = local_values(gm, acc)
+    wr = [s for s in wr if s.expr[2][1] == acc]
+    ok = len(vals) == 2 and len(wr) == 1 and not [v for _, v in vals if v[0] == "compound"]
+    ctx.ob("GetMinimumTime/shape", "PROVENANCE", "GetMinimumTime's result is initialised once and raised in exactly one place", ok, gm.where, {"values": [show(v) for _, v in vals]})
+    if not ok:
+        return
+    init = [v for l, v in vals if l != wr[0].line][0]
+    m_init = _canon_prev(gm, init, gs)
+    ok = nonstrict and m_init in ("1 + %s" % c_mtp, "%s + 1" % c_mtp)
+    ctx.ob("symmetry/min-time-start", "SYMMETRY", "the miner's minimum time starts at (the bound the consensus `time-too-old` rung rejects up to) + 1, i.e. median time past + 1",
+           ok, gm.where, {"miner": m_init, "consensus_rejects_up_to": c_mtp, "consensus_op": oc[1]})
+    s = wr[0]
+    g_if = [g for g in s.guards if g.kind in ("if", "sc")]
+    m_mod = [m for g in g_if for m in _mods(F.expand(g.expr, gs))]
+    cond = F.mk_and([g.formula(gs) for g in g_if])
+    ok_guard = len(m_mod) == 1 and F.equivalent(cond, F.mk_not(F.atom(F.key(F.expand(m_mod[0], gs)))))
+    ctx.ob("GetMinimumTime/floor-guard", "LADDER", "the timewarp floor is applied exactly when <height> % <interval> == 0 (no other condition)", ok_guard, s.where, {"guard": F.fshow(cond)})
+    if not ok_guard:
+        return
+    m_height, m_modulus = _canon_prev(gm, m_mod[0][2], gs), m_mod[0][3]
+    ctx.ob("symmetry/timewarp-height", "SYMMETRY", "the miner tests the same height as the consensus rung: the height of the block being built (previous height + 1)",
+           m_height == c_height, s.where, {"miner": m_height, "consensus": c_height})
+    rhs = F.expand(s.expr[3], gs)
+    mx = [x for x in subexprs(rhs) if callee(x) == "std::max"]
+    okv = len(mx) == 1 and len(call_args(mx[0])) == 2 and any(match(["local", acc], strip_wrappers(a)) for a in call_args(mx[0]))
+    other = [a for a in call_args(mx[0]) if not match(["local", acc], strip_wrappers(a))] if okv else []
+    m_bound = _canon_prev(gm, other[0], gs) if len(other) == 1 else None
+    ctx.ob("symmetry/timewarp-bound", "SYMMETRY", "the floor is max(min_time, B) with B the very bound the consensus rung compares the block time with (previous block time - MAX_TIMEWARP)",
+           okv and m_bound == c_bound and any(x[0] == "int" and len(x) > 2 and x[2] == "MAX_TIMEWARP" for x in subexprs(other[0])), s.where,
+           {"miner": m_bound, "consensus": c_bound})
+    # the modulus: a parameter on the miner side; every caller passes the consensus interval
+    okm = m_modulus[0] == "param" and is_expr(c_modulus) and callee(c_modulus) == "Consensus::Params::DifficultyAdjustmentInterval"
+    pidx = [p["n"] for p in gm.params].index(m_modulus[1]) if okm else None
+    calls = []
+    for q, fl in P.funcs.items():
+        for fn in fl:
+            if fn.body is not None:
+                for st, e in all_exprs(fn.body):
+                    for x in subexprs(e):
+                        if is_call_to("node::GetMinimumTime", x):
+                            calls.append((fn, st, x))
+    cg = callgraph.load_all()
+    known = {c[1] for c in cg.call_sites("node::GetMinimumTime")}
+    loaded = {fn.file for fn, _, _ in calls}
+    if not known <= loaded:
+        raise AnalysisBroken("GetMinimumTime has callers in units this rule does not load: %s" % sorted(known - loaded))
+    okc = okm and len(calls) >= 1 and all(len(call_args(x)) > pidx and callee(strip_wrappers(call_args(x)[pidx])) == "Consensus::Params::DifficultyAdjustmentInterval" for _, _, x in calls)
+    ctx.ob("symmetry/timewarp-modulus", "SYMMETRY", "the modulus is the consensus DifficultyAdjustmentInterval(): the consensus rung uses it directly and every caller of "
+           "GetMinimumTime passes it", bool(okc), gm.where, {"callers": ["%s:%s %s" % (fn.q, st.get("l"), show(x)) for fn, st, x in calls]})
+    # nTime is derived from GetMinimumTime
+    ut = ctx.used(P.fn("node::UpdateTime"))
+    us = naming(ut, P)
+    tw_ = [s2 for s2 in sites(ut, lambda e: e[0] == "b" and e[1] == "=" and show(e[2]).endswith(".nTime"), P)]
+    ok = len(tw_) == 1
+    if ok:
+        v = F.expand(tw_[0].expr[3], us)
+        mxs = [x for x in subexprs(v) if callee(x) == "std::max"]
+        prevp = [p["n"] for p in ut.params if "CBlockIndex" in p.get("ty", "")]
+        ok = len(mxs) == 1 and any(is_call_to("node::GetMinimumTime", strip_wrappers(a)) and match(["param", prevp[0]], call_args(strip_wrappers(a))[0]) for a in call_args(mxs[0])) and \
+            F.fshow(F.mk_and([g.formula(us) for g in tw_[0].guards if g.kind != "post"])) == "pblock.nTime < %s" % F.key(v)
+    ctx.ob("UpdateTime/min-time", "PROVENANCE", "UpdateTime raises nTime to max(GetMinimumTime(pindexPrev, interval), now) whenever the current nTime is smaller", bool(ok), ut.where)
+    cn = ctx.used(P.fn(BA + "CreateNewBlock"))
+    cns = naming(cn, P)
+    mf = MustFlow(cn, P, marks=[("TIME_UPDATED", lambda e: is_call_to("node::UpdateTime", e) and xkey(call_args(e)[2], cns) == "m_chainstate.m_chain.Tip()"
+                                 and xkey(call_args(e)[0], cns) in ("pblock", "&pblocktemplate.block"))])
+    mf.run()
+    rr = [(st, s2) for st, s2 in mf.exits if s2.get("k") == "ret"]
+    ctx.ob("CreateNewBlock/update-time", "ORDER", "every returned template went through UpdateTime(pblock, consensus params, tip)", bool(rr) and all("TIME_UPDATED" in st for st, _ in rr), cn.where)
